@@ -249,7 +249,11 @@ pub fn differential(tree: &Tree, in_scope: &[String], pair: &Pair, out: &mut Vec
             }
         },
     }
-    if !pair.edit.exit.success() && !in_scope.is_empty()
+    // with an unreadable source file in the tree the edit run's exit status is not specified
+    let some_unreadable = tree
+        .iter()
+        .any(|(rel, n)| matches!(n, Node::File(_)) && rel.starts_with("src/") && rel.ends_with(".rs") && !in_scope.contains(rel));
+    if !pair.edit.exit.success() && !in_scope.is_empty() && !some_unreadable
     {
         out.push(dev("edit-failed", format!("fault-free edit run failed ({}):\n{}", pair.edit.exit.describe(), pair.edit.output_tail())));
     }
